@@ -67,10 +67,18 @@ def loop_layout(spec, name):
     return out
 
 
-def mem_bindings(tensor, rank, types, evict=None, style=None):
+def format_name(layouts, out, tensor):
+    """name of the format describing `tensor` as laid out inside Einsum `out`: 'default' for the layout of the first Einsum
+    that touches the tensor, 'L<ranks>' for any other layout"""
+    first = next(v[1] for (o, t), v in layouts.items() if t == tensor)
+    lay = layouts[(out, tensor)][1]
+    return "default" if lay == first else "L" + "".join(lay)
+
+
+def mem_bindings(tensor, rank, types, evict=None, style=None, fmt="default"):
     bs = []
     for ty in types:
-        b = {"tensor": tensor, "rank": rank, "type": ty, "format": "default"}
+        b = {"tensor": tensor, "rank": rank, "type": ty, "format": fmt}
         if evict is not None:
             b["evict-on"] = evict
         if style:
@@ -90,6 +98,7 @@ def binding_menu(out, expr, layouts, loop_ranks, quick):
         lay = layouts[(out, t)][1]
         if not lay:
             continue
+        fn = format_name(layouts, out, t)
         cand = [(lay[-1], ["coord", "payload"])] + ([(lay[0], ["payload"])] if len(lay) > 1 and not quick else [])
         for rank, types in cand:
             evicts = ["root"] + [r for r in loop_ranks if r != rank and loop_ranks.index(r) < max(0, len(loop_ranks) - 1)]
@@ -101,11 +110,11 @@ def binding_menu(out, expr, layouts, loop_ranks, quick):
                     # an eager binding names the coordinate of its root rank only; the compiler expands it
                     btypes = types if style == "lazy" else types[:1]
                     menu.append(("buf:%s.%s@%s/%s" % (t, rank, ev, style), [
-                        {"component": "Mem", "bindings": mem_bindings(t, rank, types)},
-                        {"component": "Buf", "bindings": mem_bindings(t, rank, btypes, evict=ev, style=style)}]))
+                        {"component": "Mem", "bindings": mem_bindings(t, rank, types, fmt=fn)},
+                        {"component": "Buf", "bindings": mem_bindings(t, rank, btypes, evict=ev, style=style, fmt=fn)}]))
             menu.append(("cache:%s.%s" % (t, rank), [
-                {"component": "Mem", "bindings": mem_bindings(t, rank, types)},
-                {"component": "Cch", "bindings": mem_bindings(t, rank, types)}]))
+                {"component": "Mem", "bindings": mem_bindings(t, rank, types, fmt=fn)},
+                {"component": "Cch", "bindings": mem_bindings(t, rank, types, fmt=fn)}]))
     # intersectors on every rank co-iterated by >= 2 inputs of one term
     for kind, fs, _ in expr["terms"]:
         ins = [f[1] for f in fs if f[0] == "t"]
@@ -203,9 +212,9 @@ def with_hw(spec, per_einsum_bindings, layouts, bits="cp", instances=("single", 
         if lo:
             st[o] = {"space": [lo[-1]], "time": list(lo[:-1])}
     for (o, t), (init, final) in layouts.items():
-        # format of a tensor: its layout inside the first Einsum that touches it
-        if t not in fm and final:
-            fm[t] = fmt_for(final, bits)
+        # one format per distinct in-loop layout of a tensor ('default' = layout in the first Einsum that touches it)
+        if final:
+            fm.setdefault(t, {})[format_name(layouts, o, t)] = fmt_for(final, bits)["default"]
     s["format"] = fm
     s["mapping"] = dict(s.get("mapping") or {})
     if st and len(st) == len(spec["exprs"]):
@@ -264,4 +273,13 @@ def configs(quick, maxb=None):
                         per[o] = merge_bindings([menus[o][i][1]])
                         labels.append("%s:%s" % (o, menus[o][i][0]))
                 out.append(("%s|%s|cp" % (tag, "+".join(labels) or "none"), with_hw(spec, per, layouts), exts, labels))
+            if tag == "gamma":
+                # F15 (known finding): a buffer binding that names a format whose rank order is not the tensor's layout inside
+                # this Einsum is accepted, no trace is registered, yet the dump consumes it
+                i = next(i for i, m in enumerate(menus["Z"]) if m[0].startswith("buf:T.K@M/lazy"))
+                bs = copy.deepcopy(merge_bindings([menus["Z"][i][1]]))
+                for cb in bs:
+                    for b in cb["bindings"]:
+                        b["format"] = "default"
+                out.append(("gamma-fmt-mismatch|Z:buf:T.K@M/lazy|cp", with_hw(spec, {"Z": bs}, layouts), exts, ["Z:buf:T.K@M/lazy(format=default)"]))
     return out
